@@ -68,6 +68,7 @@ def build(tier, seed):
         from contracts import links
         return links.href_obligations(PROP, lambda: c16.search(("end_to_end",)))
     tasks = [a_task(PROP, _binding), a_task(PROP, _rebase), a_task(PROP, _one), a_task(PROP, _fil), a_task(PROP, _host), s_task(),
+             Task(f"{PROP}.S.casefold.names", PROP, "comparisons of entity names", lambda: __import__("contracts.casefold", fromlist=["x"]).name_obligations(PROP, replay=lambda: c16.search(("declarations",)))),
              Task(f"{PROP}.S.filter_public", PROP, "FortranCodeUnit.correlate", lambda: __import__("contracts.useassoc", fromlist=["x"]).filter_public_obligation(PROP, lambda: c16.search(("end_to_end",)))),
              Task(f"{PROP}.S.href", PROP, "FordLinkProcessor.convert_link", _href),
              Task(f"{PROP}.S.dict2obj", PROP, "dict2obj", lambda: external.dict2obj_constructs(PROP, lambda: c16.search(("same_names",)))),
